@@ -21,6 +21,9 @@ CLAIMED = {
  "C11": ("field provenance (config -> backlog), path-sensitive end/constant agreement, must-lockset over go/ssa",
          "Static: the backlog's ordering is stored from the config's ordering read after ApplyDefaults; given the end at which push inserts, the FIFO case reads the opposite list end and the LIFO case the same end, exhaustively over the two constants; eviction removes exactly the selected element under the queue mutex; named constructors, the default and the pool orderings map to the like-named constants; unblock's peek/acquire/evict/deliver are one exclusive critical section. Necessary conditions of 'served in configured order'; arrival-order = push-order and scheduler effects are not decided.",
          "5/C11"),
+ "C09": ("argument provenance + all-paths close/reset typestate + branch-fact dominance + symbolic bound proof + call-graph reachability over go/ssa",
+         "Static: delegate OnSample arguments are W.Candidate/AverageRTT, W.MaxInFlight, W.DidDrop of the one window being replaced; every closing path resets to the empty window and advances nextUpdateTime by a value proved within [minWindowTime,maxWindowTime], other paths do neither; closing is dominated by endTime > nextUpdateTime (read under the lock) and a strict readiness comparison; AddSample/AddDroppedSample are pure folds (min/max selections, +rtt, +1, sticky drop); threshold filter precedes every recording and nothing reachable from OnIgnore touches a window. Concurrent completions between snapshot and re-lock are not decided.",
+         "5/C09"),
 }
 
 PENDING_REASON = "check not built yet in this session; see DESIGN.md section 5 for the planned static obligations"
